@@ -54,8 +54,16 @@ fn main() {
     if out.is_empty() {
         usage();
     }
+    // modules whose cases may abort the process (stack overflow, non-unwinding panic) write the case in
+    // flight to $SNT_HARNESS_OUT/current_case.json; `verify` turns a dead harness into a failing input
+    std::env::set_var("SNT_HARNESS_OUT", &out);
+    let _ = std::fs::create_dir_all(&out);
     // panics are expected observations; keep stderr quiet
-    std::panic::set_hook(Box::new(|_| {}));
+    std::panic::set_hook(Box::new(|info| {
+        if std::env::var("SNT_PANIC_VERBOSE").is_ok() {
+            eprintln!("panic: {}", info);
+        }
+    }));
 
     let mut inputs: Vec<Value> = vec![];
     let read_jsonl = |path: &str, inputs: &mut Vec<Value>| {
